@@ -12,6 +12,7 @@ import XzVerif.Model.Writer1
 import XzVerif.Model.XzWriter
 import XzVerif.Model.Select
 import XzVerif.Model.HashTable
+import XzVerif.Model.BinTree
 /-
   driver — line protocol around the executable definitions of Spec and Model.
   One request per line on stdin, one reply line on stdout.  Core-only, so it links.
@@ -376,14 +377,30 @@ def handle (line : String) : String :=
     | some bs, some lens => " ".intercalate ((XW.run bs lens).blocks.map toString)
     | _, _ => "bad-op"
   -- w2auto <propsByte> <dictCap> <bufSize> <call>... → as w2run, the match finder being the Lean HashTable4 model
-  | "w2auto" :: pb :: dc :: bs :: calls =>
+  | "w2auto" :: mt :: pb :: dc :: bs :: calls =>
     match pb.toNat?.bind Lzma2.propsOfByte, dc.toNat?, bs.toNat?, calls.mapM parseCall with
     | some p, some dc, some bs, some calls =>
       let cfg : W2.Cfg := { props := p, dictCap := dc, bufSize := bs }
-      let (w, rs) := W2.run cfg HT.HT4 (W2.init cfg (HT.St.new dc bs)) calls
-      " ".intercalate (rs.map (fun (r, sz) => s!"{r.n}:{errName r.err}@{sz}")) ++ " | " ++ hex w.out ++ " | " ++
-        ",".intercalate (w.chunks.toList.map (fun c => s!"{nameOfKind c.kind}:{c.raw.size}:{c.ops.size}"))
+      let (out, chunks, rs) :=
+        if mt = "1" then
+          let (w, rs) := W2.run cfg BT.BT4 (W2.init cfg (BT.St.new dc bs)) calls
+          (w.out, w.chunks, rs)
+        else
+          let (w, rs) := W2.run cfg HT.HT4 (W2.init cfg (HT.St.new dc bs)) calls
+          (w.out, w.chunks, rs)
+      let w : (ByteArray × Array Lzma2.Chunk) := (out, chunks)
+      " ".intercalate (rs.map (fun (r, sz) => s!"{r.n}:{errName r.err}@{sz}")) ++ " | " ++ hex w.1 ++ " | " ++
+        ",".intercalate (w.2.toList.map (fun c => s!"{nameOfKind c.kind}:{c.raw.size}:{c.ops.size}"))
     | _, _, _, _ => "bad-op"
+  -- btcands <dictCap> <hex(history)> <hex(look ≤ 273)> → special:a:b of the Lean binary tree model
+  | ["btcands", dc, h, l] => match dc.toNat? with
+    | some dc =>
+      let hist := unhex h
+      let t := (BT.Tree.new dc).write hist 0 hist.size
+      let (sp, a, b) := t.cands (unhex l)
+      let f (x : List Nat) : String := if x.isEmpty then "-" else ",".intercalate (x.map toString)
+      s!"{if sp then 1 else 0}:{f a}:{f b}"
+    | none => "bad-op"
   -- htcands <dictCap> <hex(history)> <hex(look)> → candidate distances of the Lean hash table model
   | ["htcands", dc, h, l] => match dc.toNat? with
     | some dc =>
